@@ -366,7 +366,7 @@ class Engine(object):
         memo[i] = r
         return r
 
-    def concretize(self, x, what='value'):
+    def concretize(self, x, what='value', limit=None):
         """Return a concrete int for x, forking over every feasible value."""
         if isinstance(x, bool):
             return int(x)
@@ -385,6 +385,8 @@ class Engine(object):
                 raise EngineError('nondeterministic replay (expected branch decision)')
             if d.cur is None:
                 # pick the next unexplored feasible value
+                if limit is not None and len(d.done) >= limit:
+                    raise Unsupported('more than %d values of a symbolic %s' % (limit, what))
                 v = self._next_value(t, d.done)
                 if v is None:
                     d.exhausted = True
